@@ -306,6 +306,7 @@ pub fn run(ctx: &Ctx) -> Report {
                 Oracle: M-zone validator, the C13 sentence clause by clause. LocalTimeType::new over offsets incl. i32::MIN and designations of length 0..9 over good and bad characters. distinct_nontrivial = distinct perturbed or generated tuples (enumerated per base zone)."
         .into();
     rep.required_classes = vec![
+        "last_transition_on_a_leap_record_with_rule_switch_there",
         "accepted",
         "refused",
         "index_out_of_range/first",
@@ -409,6 +410,60 @@ pub fn run(ctx: &Ctx) -> Report {
         }
         l.op_n("TimeZone::new + TimeZoneRef::new", 2);
         l.distinct_enumerated += 1;
+    });
+    // wl 7: the junction clause at its sharpest: the last transition recorded on a leap record (or one second
+    // around it) and a DST rule that switches exactly at the UTC instant of that transition (or one second
+    // around it); the last type is the rule's standard or daylight type, so both verdicts occur
+    run_cases(ctx, &mut rep, 7, ctx.n(40_000, 600_000), |l, rng, _| {
+        use crate::model::cal;
+        use crate::model::rule::{AltSpec, Day};
+        let nrec = 1 + rng.below(4) as usize;
+        let base = rng.range(0, 3_000_000_000);
+        let mut leaps = vec![];
+        let mut corr = 0i32;
+        for k in 0..nrec {
+            corr += if rng.chance(1, 5) { -1 } else { 1 };
+            leaps.push((base + k as i64 * (2_419_199 + rng.range(0, 40_000_000)), corr));
+        }
+        for k in 1..nrec {
+            if leaps[k].0 - leaps[k - 1].0 < 2_419_199 {
+                return;
+            }
+        }
+        let table = LeapTable(leaps.clone());
+        if !table.valid() {
+            return;
+        }
+        let j = rng.below(nrec as u64) as usize;
+        let t_last = leaps[j].0 + rng.range(-1, 1);
+        let u = table.g(t_last);
+        if u < 0 || u > 8_000_000_000 {
+            return;
+        }
+        let u = u as i64 + rng.range(-1, 1); // the rule's switch instant
+        let c = cal::civil_from_unix(u);
+        let jan1 = cal::days_from_civil(c.year, 1, 1) * 86400;
+        let n = ((u - jan1) / 86400) as u16;
+        let sod = (u - jan1) % 86400;
+        let std_off = (rng.range(-48, 48) * 900) as i32;
+        let dst_off = std_off + *rng.pick(&[3600, 1800, -3600]);
+        let std = TypeSpec::new(std_off, false, Some("SSS"));
+        let dst = TypeSpec::new(dst_off, true, Some("DDD"));
+        let far = Day::N((n + 150 + rng.below(60) as u16) % 365);
+        // switch into DST at u (start) or out of it (end)
+        let a = if rng.chance(1, 2) {
+            AltSpec { std: std.clone(), dst: dst.clone(), start: Day::N(n), start_time: sod as i32 + std_off, end: far, end_time: 7200 }
+        } else {
+            AltSpec { std: std.clone(), dst: dst.clone(), start: far, start_time: 7200, end: Day::N(n), end_time: sod as i32 + dst_off }
+        };
+        let last_type = rng.below(2) as usize;
+        let z = ZoneSpec { transitions: vec![(t_last - 5_000_000, 1 - last_type), (t_last, last_type)], types: vec![std, dst], leaps: table, rule: Some(RuleSpec::Alt(a)) };
+        judge(l, &z, "rule_switch_on_the_last_transition", None);
+        if t_last == leaps[j].0 {
+            l.class("last_transition_on_a_leap_record_with_rule_switch_there");
+        }
+        l.op_n("TimeZone::new + TimeZoneRef::new", 2);
+        l.distinct_hash(Fnv::new().b(z.describe().as_bytes()).get());
     });
     // random malformed tuples
     run_cases(ctx, &mut rep, 3, ctx.n(150_000, 2_000_000), |l, rng, _| {
